@@ -265,3 +265,47 @@ Proof.
   split; [reflexivity|]. split; [reflexivity|]. split; [reflexivity|].
   induction n as [|n IH]; [reflexivity|]. exact IH.
 Qed.
+
+(* (11) seeded change C04-9: the ctx.Done() branch first copies the handler's headers whose
+   name starts with "Access-Control-" from tw.h onto the real writer ("keep the CORS headers
+   on timeout responses").  Header names are integer keys in the model; [cors k] says that
+   key k goes by such a name. *)
+Definition cors_step (cors : Z -> bool) (s : state) (e : ev) : state :=
+  match e, sst s, dk s with
+  | ES BTimeout, SWait, Some k =>
+    let kept := filter (fun kv => cors (fst kv)) (bh (tb s)) in
+    mkSt (tb s) true (timeout_write k (rw_hdr (fun d => overlay d kept) (rw s)))
+         (hst s) (hrest s) (hexec s) (dk s) (STimeoutRet k) (hexec s)
+  | _, _, _ => stepT s e
+  end.
+
+Definition cors_run (cors : Z -> bool) (s : state) (sched : list ev) : state :=
+  fold_left (cors_step cors) sched s.
+
+(* the 503 carries a header of the unfinished work: not the timeout reply of Props.all_or_nothing *)
+Theorem cors_headers_on_timeout_refuted :
+  exists cors script sched k,
+    has_flush script = false /\
+    sst (cors_run cors (init true [] script) sched) = STimeoutRet k /\
+    rw (cors_run cors (init true [] script) sched) <> timeout_resp true [] k.
+Proof.
+  exists (fun k => k =? 1), [ASet 1 7; ASet 2 9; AWrite [200]], [EH; EH; ED KDeadline; ES BTimeout], KDeadline.
+  vm_compute. split; [reflexivity|]. split; [reflexivity|discriminate].
+Qed.
+
+Example cors_headers_mixture :
+  rw (cors_run (fun k => k =? 1) (init true [] [ASet 1 7; ASet 2 9; AWrite [200]]) [EH; EH; ED KDeadline; ES BTimeout]) =
+  mkRW true [(1, [7])] (Some (503, [(1, [7])])) reason [].
+Proof. vm_compute. reflexivity. Qed.
+
+(* ... and it is the real thing whenever the handler set no such header *)
+Theorem cors_same_without_cors_headers : forall s e,
+  cors_step (fun _ => false) s e = stepT s e.
+Proof.
+  intros s e. unfold cors_step. destruct e as [|k|b]; try reflexivity. destruct b; try reflexivity.
+  destruct (sst s) eqn:Es; try reflexivity. destruct (dk s) eqn:Ed; [|reflexivity].
+  unfold stepT, step, s_step. rewrite Es, Ed.
+  assert (H : filter (fun kv : Z * list Z => false) (bh (tb s)) = []).
+  { induction (bh (tb s)); [reflexivity|exact IHh]. }
+  rewrite H. destruct (rw s). reflexivity.
+Qed.
